@@ -23,7 +23,7 @@ impl Group for C11Sim {
          store and its durable view compared with the running node; non-trivial = at least three accepted state-changing requests \
          of at least two different kinds"
     }
-    fn budget(&self, tier: Tier) -> usize { if tier == Tier::Quick { 250 } else { 4000 } }
+    fn budget(&self, tier: Tier) -> usize { if tier == Tier::Quick { 450 } else { 4000 } }
     fn model_line(&self, op: &str) -> Option<String> { node_model_line(op) }
     fn corpus(&self) -> Vec<Vec<String>> {
         let c = |s: &str| s.split('|').map(|x| x.to_string()).collect::<Vec<_>>();
@@ -218,7 +218,7 @@ impl Group for C11Stub {
          durable view of a second node restored from the store (and from the crash point between prepare and commit) is \
          compared with the running node; monitor-only (no model); non-trivial as for the main group"
     }
-    fn budget(&self, tier: Tier) -> usize { if tier == Tier::Quick { 40 } else { 600 } }
+    fn budget(&self, tier: Tier) -> usize { if tier == Tier::Quick { 150 } else { 1000 } }
     fn corpus(&self) -> Vec<Vec<String>> {
         let c = |s: &str| s.split('|').map(|x| x.to_string()).collect::<Vec<_>>();
         vec![
